@@ -233,10 +233,10 @@ Proof.
     cbn [fst snd] in *. exists ma, mr, sa2, sr2. rewrite A, Ar.
     split; [reflexivity|]. split; [reflexivity|]. split; [exact M1|]. split; [exact M2|].
     split; eapply frame_trans; eassumption.
-  - set (h3a := with_size_name (set_pax h2a (pax_set K_replaces_content V_false (h_pax h2a))) 0 (h_name h2a)).
-    set (h3r := with_size_name (set_pax h2r (pax_set K_replaces_content V_false (h_pax h2r))) 0 (h_name h2r)).
+  - set (h3a := with_size_name (set_pax h2a (pax_set K_replaces_content V_false (keep_size h2a))) 0 (h_name h2a)).
+    set (h3r := with_size_name (set_pax h2r (pax_set K_replaces_content V_false (keep_size h2r))) 0 (h_name h2r)).
     assert (H3 : hrel h3a h3r).
-    { apply hrel_wsn; [|exact (hr_name _ _ H2)]. apply hrel_set_pax; [exact H2|apply pax_set_rel_eq; exact (hr_pax _ _ H2)]. }
+    { apply hrel_wsn; [|exact (hr_name _ _ H2)]. apply hrel_set_pax; [exact H2|apply pax_set_rel_eq; apply keep_size_rel; exact H2]. }
     destruct (mk_member_rel sa1 sr1 h3a h3r None 0 He1 H3) as (M1 & M2 & M3 & M4).
     pose proof (mk_member_hdr sa1 h3a None 0) as A. pose proof (mk_member_hdr sr1 h3r None 0) as Ar.
     destruct (mk_member sa1 h3a None 0) as [ma sa2]. destruct (mk_member sr1 h3r None 0) as [mr sr2].
@@ -346,7 +346,7 @@ Proof.
   intros H Hna. pose proof (hrel_of_rowrel a r H) as Hh. unfold mov_hdr.
   apply hrel_wsn; [|apply nrel_norm].
   apply hrel_set_pax; [exact Hh|]. apply pax_set_rel.
-  - apply pax_set_rel_eq. apply pax_set_rel_eq. apply pax_del_rel. exact (hr_pax _ _ Hh).
+  - apply pax_set_rel_eq. apply pax_set_rel_eq. apply pax_del_rel. apply keep_size_rel. exact Hh.
   - right. split; [reflexivity|exact (rr_name _ _ H)].
 Qed.
 
